@@ -1,4 +1,6 @@
 import TextxVerif.Proofs.ProcWalk
+import TextxVerif.Proofs.ProcOrder
+import TextxVerif.Proofs.ProcLoad
 /-!
 # C13 — object processors run once each, bottom-up, on a fully linked model
 
@@ -251,6 +253,251 @@ theorem C13_finish_single (M : MM) (S : Script) (isUser : Nat → Bool) (resolve
   congr 2
   simp [Function.comp_def]
 
+/-! ## D13: declarative reading of the entitled calls, abstract exact-once, positive ordering -/
+
+/-- **The entitled calls, declaratively** (independent of the two `if`s of `calls`
+/ `objStep`): `(r, i)` is a call an occurrence is entitled to iff `i` is the
+object, `r` has a processor registered, and `r` is the object's own rule or the
+rule its containing attribute is declared with. -/
+theorem C13_calls_iff (M : MM) (o : Occ) (k : Nat × Nat) :
+    k ∈ calls M o ↔ k.2 = o.id ∧ M.hasProc k.1 = true ∧ (k.1 = o.cls ∨ k.1 = o.gm) :=
+  calls_mem_iff M o k
+
+/-- no occurrence is entitled to the same call twice (own = declared rule: one call) -/
+theorem C13_calls_nodup (M : MM) (o : Occ) : (calls M o).Nodup := calls_nodup M o
+
+/-- **Which processor calls happen.** Processor `r` is called on object `i` iff `r`
+is registered and `i` is an object of the model whose own rule is `r` or which is
+stored in an attribute declared with rule `r`. -/
+theorem C13_called_iff (M : MM) (S : Script) (v : Val) (gm : Nat) (h : wf M v gm = true) (r i : Nat) :
+    (r, i) ∈ (walk M S v gm).log.map Entry.key ↔
+      M.hasProc r = true ∧ ∃ o ∈ occ v gm, o.id = i ∧ (r = o.cls ∨ r = o.gm) := by
+  rw [walk_log M S v gm h, List.mem_flatMap]
+  constructor
+  · rintro ⟨o, ho, hk⟩
+    have := (calls_mem_iff M o (r, i)).1 hk
+    exact ⟨this.2.1, o, ho, this.1.symm, this.2.2⟩
+  · rintro ⟨hp, o, ho, hid, hr⟩
+    exact ⟨o, ho, (calls_mem_iff M o (r, i)).2 ⟨hid.symm, hp, hr⟩⟩
+
+/-- **Abstract rule: exactly once.** With distinct object ids the processor of an
+abstract rule `a` is called exactly once on every object stored in an attribute
+declared `a` (the counterpart of `C13_once_exactly`). -/
+theorem C13_abstract_once_exactly (M : MM) (S : Script) (v : Val) (gm : Nat) (h : wf M v gm = true)
+    (hn : (oids v).Nodup) (a : Nat) (ha : M.kind a = .abstr) (hp : M.hasProc a = true)
+    (o : Occ) (ho : o ∈ occ v gm) (hoa : o.gm = a) :
+    ((walk M S v gm).log.map Entry.key).count (a, o.id) = 1 := by
+  have hcount : ((walk M S v gm).log.map Entry.key).count (a, o.id) =
+      (((walk M S v gm).log.map Entry.key).filter (fun k => k.1 = a)).count (a, o.id) := by
+    rw [List.count_filter]; simp
+  rw [hcount, C13_abstract M S v gm h a ha hp]
+  have hmap : ((occ v gm).filter (fun o => o.gm = a)).map (fun o => (a, o.id)) =
+      (((occ v gm).filter (fun o => o.gm = a)).map (·.id)).map (fun x => (a, x)) := by
+    simp [List.map_map]
+  rw [hmap, count_map_pair]
+  have hsub : (((occ v gm).filter (fun o => o.gm = a)).map (·.id)).Sublist (oids v) := by
+    rw [← occ_ids v gm]
+    exact List.filter_sublist.map _
+  have hle := (List.nodup_iff_count.1 (hn.sublist hsub)) o.id
+  have hmem : o.id ∈ ((occ v gm).filter (fun o => o.gm = a)).map (·.id) :=
+    List.mem_map.2 ⟨o, List.mem_filter.2 ⟨ho, by simpa using hoa⟩, rfl⟩
+  have hpos := List.count_pos_iff.2 hmem
+  omega
+
+/-- …and on nothing else: every call of `a`'s processor is on an object stored in an
+attribute declared `a`. -/
+theorem C13_abstract_only (M : MM) (S : Script) (v : Val) (gm : Nat) (h : wf M v gm = true)
+    (a : Nat) (ha : M.kind a = .abstr) (hp : M.hasProc a = true) (i : Nat)
+    (hi : (a, i) ∈ (walk M S v gm).log.map Entry.key) :
+    ∃ o ∈ occ v gm, o.gm = a ∧ o.id = i := by
+  have : (a, i) ∈ ((walk M S v gm).log.map Entry.key).filter (fun k => k.1 = a) :=
+    List.mem_filter.2 ⟨hi, by simp⟩
+  rw [C13_abstract M S v gm h a ha hp] at this
+  obtain ⟨o, ho, heq⟩ := List.mem_map.1 this
+  have ho' := List.mem_filter.1 ho
+  exact ⟨o, ho'.1, by simpa using ho'.2, by simpa using (Prod.mk.inj heq).2⟩
+
+/-- **Every call at most once** (any rule, common or abstract): with distinct object
+ids no (processor, object) pair is called twice. -/
+theorem C13_no_call_twice (M : MM) (S : Script) (v : Val) (gm : Nat) (h : wf M v gm = true)
+    (hn : (oids v).Nodup) : ((walk M S v gm).log.map Entry.key).Nodup := by
+  rw [walk_log M S v gm h]
+  have hocc : ((occ v gm).map (·.id)).Nodup := by rw [occ_ids]; exact hn
+  generalize occ v gm = l at hocc
+  induction l with
+  | nil => simp
+  | cons o os ih =>
+    rw [List.map_cons, List.nodup_cons] at hocc
+    rw [List.flatMap_cons, List.nodup_append]
+    refine ⟨calls_nodup M o, ih hocc.2, ?_⟩
+    intro x hx y hy hxy
+    subst hxy
+    obtain ⟨o', ho', hk⟩ := List.mem_flatMap.1 hy
+    have h1 := ((calls_mem_iff M o x).1 hx).1
+    have h2 := ((calls_mem_iff M o' x).1 hk).1
+    exact hocc.1 (List.mem_map.2 ⟨o', ho', by rw [← h2, h1]⟩)
+
+/-- **Child before container (positive form).** If object `a` (transitively)
+contains object `b`, then *every* processor call on `b` — whatever rule `r` it is
+made for — comes before *every* processor call on `a`: first-occurrence indices
+in the call sequence (by `C13_no_call_twice` the only occurrences).  No shape
+assumption is needed (the survey's `wf` hypothesis is superfluous). -/
+theorem C13_child_before_container (M : MM) (S : Script) (v : Val) (gm : Nat) (hn : (oids v).Nodup)
+    (a b r r' : Nat) (hin : inside v a b)
+    (hb : (r, b) ∈ (walk M S v gm).log.map Entry.key) (ha : (r', a) ∈ (walk M S v gm).log.map Entry.key) :
+    ((walk M S v gm).log.map Entry.key).idxOf (r, b) < ((walk M S v gm).log.map Entry.key).idxOf (r', a) := by
+  have hi := List.idxOf_lt_length_of_mem ha
+  have hj := List.idxOf_lt_length_of_mem hb
+  refine keys_before M S v gm hn _ _ hi hj ?_
+  rw [List.getElem_idxOf hi, List.getElem_idxOf hj]
+  exact hin
+
+/-- …for all positions, not only the first occurrences -/
+theorem C13_child_before_container_idx (M : MM) (S : Script) (v : Val) (gm : Nat) (hn : (oids v).Nodup)
+    (i j : Nat) (hi : i < ((walk M S v gm).log.map Entry.key).length)
+    (hj : j < ((walk M S v gm).log.map Entry.key).length)
+    (hin : inside v (((walk M S v gm).log.map Entry.key)[i]).2 (((walk M S v gm).log.map Entry.key)[j]).2) :
+    j < i :=
+  keys_before M S v gm hn i j hi hj hin
+
+/-- **Child before container, from the model alone.** For objects `oa`, `ob` of a
+well-formed model with `ob` inside `oa`: every call `ob` is entitled to and every
+call `oa` is entitled to *does happen*, and the former comes first. -/
+theorem C13_child_before_container_calls (M : MM) (S : Script) (v : Val) (gm : Nat) (h : wf M v gm = true)
+    (hn : (oids v).Nodup) (oa ob : Occ) (hoa : oa ∈ occ v gm) (hob : ob ∈ occ v gm)
+    (hin : inside v oa.id ob.id) (ka kb : Nat × Nat) (hka : ka ∈ calls M oa) (hkb : kb ∈ calls M ob) :
+    ka ∈ (walk M S v gm).log.map Entry.key ∧ kb ∈ (walk M S v gm).log.map Entry.key ∧
+    ((walk M S v gm).log.map Entry.key).idxOf kb < ((walk M S v gm).log.map Entry.key).idxOf ka := by
+  have ha : ka ∈ (walk M S v gm).log.map Entry.key := by
+    rw [walk_log M S v gm h]; exact List.mem_flatMap.2 ⟨oa, hoa, hka⟩
+  have hb : kb ∈ (walk M S v gm).log.map Entry.key := by
+    rw [walk_log M S v gm h]; exact List.mem_flatMap.2 ⟨ob, hob, hkb⟩
+  refine ⟨ha, hb, ?_⟩
+  obtain ⟨ra, ia⟩ := ka
+  obtain ⟨rb, ib⟩ := kb
+  have h1 : ia = oa.id := ((calls_mem_iff M oa (ra, ia)).1 hka).1
+  have h2 : ib = ob.id := ((calls_mem_iff M ob (rb, ib)).1 hkb).1
+  subst h1; subst h2
+  exact C13_child_before_container M S v gm hn oa.id ob.id rb ra hin hb ha
+
+/-- both processors return `None` (or none is registered): the slot keeps the object -/
+theorem C13_replace_keep (M : MM) (S : Script) (id cls : Nat) (fs : Fields) (gm : Nat) (hk : M.kind gm ≠ .mtch)
+    (hown : cls = gm ∨ M.hasProc cls = false ∨ S cls id = .none)
+    (hdecl : M.hasProc gm = false ∨ S gm id = .none) :
+    slotVal (walk M S (.obj id cls fs) gm) = fin M S (.obj id cls fs) := by
+  rw [C13_replace_obj M S id cls fs gm hk]
+  rcases hown with h | h | h <;> rcases hdecl with h' | h' <;>
+    simp [chosen, h, h', retOf, pick]
+
+/-! ## D13: "only after all references are resolved" — the resolutions come from the loop
+
+`C13_phase*` take the resolutions as a given list.  `loadEvents` obtains them from
+the model of the resolution loop itself (`LinkLoc.run`: every scope provider, every
+postponement schedule), and reaches initialisation and the walk only when that loop
+ends without error. -/
+
+/-- **Fully linked before the first processor call.** If a load produces events at
+all (in particular: if any processor is called), then the resolution loop ended
+with no pending cross-reference in any model; every reference of every model file
+was answered with an object by its scope provider (the first time it did not
+postpone); and the event sequence is: one resolution per reference of every file,
+then the user-class initialisations of every model, then the processor calls. -/
+theorem C13_linked_before_processing (files : List LinkLoc.FileSpec) (ans : Nat → Nat → LinkLoc.Answer)
+    (fuel : Nat) (S : Script) (isUser : Nat → Bool) (models : List (MM × Val)) (evs : List Ev)
+    (htext : ∀ f ∈ files, f.refs.Pairwise (fun a b => a.pos < b.pos))
+    (h : loadEvents files ans fuel S isUser models = some evs) :
+    (∃ ms, LinkLoc.run files ans fuel = .ok ms ∧ ∀ m ∈ ms, m.crossrefs = []) ∧
+    (∀ f ∈ files, ∀ r ∈ f.refs, ∃ k t, LinkLoc.FirstAnswer ans r.id k (.resolved t)) ∧
+    evs = (files.flatMap (fun f => f.refs.map (·.id))).map Ev.resolve ++
+          (initsFrom isUser 0 (models.map (·.2)) ++ procsFromMM S 0 models) := by
+  unfold loadEvents at h
+  cases hr : LinkLoc.run files ans fuel with
+  | ok ms =>
+    rw [hr] at h
+    simp only [Option.some.injEq] at h
+    have hl := run_ok_linked files ans fuel ms htext hr
+    refine ⟨⟨ms, rfl, ?_⟩, ?_, ?_⟩
+    · intro m hm
+      obtain ⟨f, _, hf⟩ := All2.mem_right hl m hm
+      exact hf.1
+    · intro f hf r hr'
+      obtain ⟨m, _, hm⟩ := All2.mem_left hl f hf
+      exact hm.2.2 r hr'
+    · rw [← h, finishMM, resolvedRefs_eq files ms (hl.imp (fun _ _ hfm => hfm.2.1))]
+  | err e => rw [hr] at h; simp at h
+  | crash => rw [hr] at h; simp at h
+  | fuel => rw [hr] at h; simp at h
+
+/-- …so the resolution of every reference of every model precedes every processor
+call (and every initialisation), and nothing is resolved afterwards -/
+theorem C13_resolved_precede_processing (files : List LinkLoc.FileSpec) (ans : Nat → Nat → LinkLoc.Answer)
+    (fuel : Nat) (S : Script) (isUser : Nat → Bool) (models : List (MM × Val)) (evs : List Ev)
+    (htext : ∀ f ∈ files, f.refs.Pairwise (fun a b => a.pos < b.pos))
+    (h : loadEvents files ans fuel S isUser models = some evs) :
+    ∃ pre post, evs = pre ++ post ∧
+      (∀ f ∈ files, ∀ r ∈ f.refs, Ev.resolve r.id ∈ pre) ∧
+      (∀ e ∈ pre, e.isProc = false) ∧
+      (∀ e ∈ post, ∀ n, e ≠ Ev.resolve n) ∧
+      (∀ e ∈ evs, e.isProc = true → e ∈ post) := by
+  obtain ⟨_, _, he⟩ := C13_linked_before_processing files ans fuel S isUser models evs htext h
+  refine ⟨_, _, he, ?_, ?_, ?_, ?_⟩
+  · intro f hf r hr
+    exact List.mem_map.2 ⟨r.id, List.mem_flatMap.2 ⟨f, hf, List.mem_map.2 ⟨r, hr, rfl⟩⟩, rfl⟩
+  · intro e he'
+    obtain ⟨n, _, rfl⟩ := List.mem_map.1 he'
+    rfl
+  · intro e he' n hn
+    subst hn
+    rcases List.mem_append.1 he' with h1 | h1
+    · -- an initialisation event is not a resolution
+      have : ∀ (vs : List Val) (k : Nat), Ev.resolve n ∉ initsFrom isUser k vs := by
+        intro vs
+        induction vs with
+        | nil => intro k; simp [initsFrom]
+        | cons v vs ih =>
+          intro k hmem
+          rw [initsFrom] at hmem
+          rcases List.mem_append.1 hmem with hm | hm
+          · simp only [userInits, List.mem_map] at hm
+            obtain ⟨o, _, ho⟩ := hm
+            cases ho
+          · exact ih (k + 1) hm
+      exact this _ 0 h1
+    · have := procsFromMM_proc S models 0 _ h1
+      simp [Ev.isProc] at this
+  · intro e he' hp
+    rw [he] at he'
+    rcases List.mem_append.1 he' with h1 | h1
+    · obtain ⟨n, _, rfl⟩ := List.mem_map.1 h1
+      simp [Ev.isProc] at hp
+    · exact h1
+
+/-- a load that fails in parsing or in reference resolution (syntax error, unknown
+object, unresolvable references) calls no processor at all -/
+theorem C13_unlinked_no_processing (files : List LinkLoc.FileSpec) (ans : Nat → Nat → LinkLoc.Answer)
+    (fuel : Nat) (S : Script) (isUser : Nat → Bool) (models : List (MM × Val))
+    (h : ∀ ms, LinkLoc.run files ans fuel ≠ .ok ms) :
+    loadEvents files ans fuel S isUser models = none := by
+  unfold loadEvents
+  cases hr : LinkLoc.run files ans fuel with
+  | ok ms => exact absurd hr (h ms)
+  | err e => rfl
+  | crash => rfl
+  | fuel => rfl
+
+/-- **The root is never replaced.** The object a walk is started on (the model root:
+it has no containing attribute) stays the model object whatever its processors
+return — after the walk it is the object with every slot below it in its final
+state; a return value only takes effect through `slotVal` in a containing slot. -/
+theorem C13_root_kept (M : MM) (S : Script) (id cls : Nat) (fs : Fields) (gm : Nat) (hk : M.kind gm ≠ .mtch) :
+    (walk M S (.obj id cls fs) gm).val = fin M S (.obj id cls fs) := by
+  simp [walk, objStep, hk, fin, walkFields_fin]
+
+/-- on the root (declared rule = own rule) only the own-rule processor is called, once -/
+theorem C13_root_calls (M : MM) (id cls : Nat) :
+    calls M ⟨id, cls, cls⟩ = if M.hasProc cls then [(cls, id)] else [] := by
+  simp [calls]
+
 /-! ## non-vacuity
 
 classes: 0 `Model` (common), 1 `A` (common), 2 `B` (common), 3 `Base` (abstract: A | B | INT), 4 `INT` (match).
@@ -289,5 +536,31 @@ example : finishMM exS (fun c => c = 1) [0] [(exM, exV), (exM', exV)] =
     [.resolve 0, .init 0 11, .init 0 14, .init 1 11, .init 1 14,
      .proc 0 3 12, .proc 0 1 11, .proc 0 3 11, .proc 0 3 13, .proc 0 1 14, .proc 0 0 10,
      .proc 1 2 12, .proc 1 2 13] := by decide
+
+/-! D13 non-vacuity: containment, entitled calls and the ordering hypotheses on `exV` -/
+example : inside exV 10 12 ∧ inside exV 11 12 := by
+  simp [exV, inside, insideFields, insideItems, oids, oidsFields, oidsItems]
+example : (⟨11, 1, 3⟩ : Occ) ∈ occ exV 0 ∧ (⟨12, 2, 3⟩ : Occ) ∈ occ exV 0 := by decide
+example : calls exM ⟨11, 1, 3⟩ = [(1, 11), (3, 11)] ∧ calls exM ⟨12, 2, 3⟩ = [(3, 12)] := by decide
+example : ((walk exM exS exV 0).log.map Entry.key).idxOf (3, 12) = 0 ∧
+    ((walk exM exS exV 0).log.map Entry.key).idxOf (1, 11) = 1 := by decide
+example : ((walk exM exS exV 0).log.map Entry.key).count (3, 13) = 1 := by decide
+example : slotVal (walk exM exS (.obj 13 2 .nil) 3) = .obj 13 2 .nil := by rfl
+
+/-! D13 non-vacuity: a load of two files with three references (reference 0 postponed
+once), the object tree `exV` for the main model; and a load with an unresolvable
+reference, which reaches no processor -/
+def exFiles : List LinkLoc.FileSpec :=
+  [⟨some "a", List.replicate 70 'x', [⟨0, 40, 45⟩, ⟨1, 58, 61⟩], none⟩,
+   ⟨some "b", List.replicate 9 'x', [⟨2, 3, 4⟩], none⟩]
+
+example : ∀ f ∈ exFiles, f.refs.Pairwise (fun a b => a.pos < b.pos) := by decide
+example : loadEvents exFiles
+      (fun k id => if k = 0 ∧ id = 0 then .postponed else .resolved ⟨some "b", id, id + 5⟩) 4
+      exS (fun c => c = 1) [(exM, exV)] =
+    some [.resolve 0, .resolve 1, .resolve 2, .init 0 11, .init 0 14,
+          .proc 0 3 12, .proc 0 1 11, .proc 0 3 11, .proc 0 3 13, .proc 0 1 14, .proc 0 0 10] := by decide
+example : loadEvents exFiles (fun _ id => if id = 1 then .postponed else .resolved ⟨some "b", id, id + 5⟩) 4
+      exS (fun c => c = 1) [(exM, exV)] = none := by decide
 
 end Proc
